@@ -190,6 +190,9 @@ type Result struct {
 	RC     int // exit status; 124 = killed at the wall-clock limit
 	Wall   time.Duration
 	Output string
+	// Idle is, for a run killed at the limit, how long before the kill the last event was logged: a large value
+	// means plz sat there with nothing running (a hang), a small one that it was still working (a slow machine).
+	Idle time.Duration
 }
 
 func intsIn(xs []int, x int) bool {
@@ -311,6 +314,11 @@ func (c *Case) Run(plz, scratch string, id int, limit time.Duration) (*Result, e
 		case <-time.After(5 * time.Second):
 		}
 		res.RC = 124
+		if st, err := os.Stat(log); err == nil {
+			res.Idle = time.Since(st.ModTime())
+		} else {
+			res.Idle = time.Since(start)
+		}
 	}
 	res.Wall = time.Since(start)
 	res.Output = out.String()
